@@ -1,11 +1,12 @@
 '''C02 -- reprocessing after a change is complete and minimal.'''
-from props import sched_common as sc, sched_oracles as so
+from vlib import core
+from props import sched_common as sc, sched_oracles as so, c02_flow
 
 PID = 'C02'
 META = {
-    'text': 'Trigger level proved for every engine/state/history over the scheduler model: after a success report every consumer of a new value (children declaring it, feedback consumers) is pending for the affected targets and queued (complete); no other node gains anything (minimal); over histories pending work disappears only by release, by a failed upstream run on that target, or by a rebuild, and appears only by a request, a success report with a new input, or a rebuild naming it. Model tied to schedule.update/organize/complete and Hand._res by step correspondence; oracle evaluated on the implementation around every success reply. End-state clause: refuted for overlapping change events on the real code (open known finding endstate-stale, witness replayed through the real store); stated as partial.',
-    'note': 'Trusted: Coq kernel; Sched.v + drive_sched.py correspondence (fakes: transports, fsm stub, db stubs, in-memory AE packages). Partial: the end-state equality with a from-scratch run is not proved (needs the store model composed with deterministic algorithms and a non-overlap hypothesis); promotion engine off; timer-driven requests are modelled in C20.',
-    'technique': 'Coq proof over hand-written executable model + model/implementation correspondence + implementation-side oracle',
+    'text': 'Trigger level proved for every engine/state/history over the scheduler model: after a success report every consumer of a new value (children declaring it, feedback consumers) is pending for the affected targets and queued (complete); no other node gains anything (minimal); over histories pending work disappears only by release, by a failed upstream run on that target, or by a rebuild, and appears only by a request, a success report with a new input, or a rebuild naming it. Model tied to schedule.update/organize/complete and Hand._res by step correspondence; oracle evaluated on the implementation around every success reply. End-state clause: modelled end to end (Model/Flow.v = the scheduler model + run ids as organize/rerunid/db.next hand them out + the primary table with the load rule of shelve Interface._load + deterministic algorithms with injective outputs, novelty = blob never stored). Proved (C02_endstate_partial, unbounded): for every task-only engine with one value per algorithm and every history whose change events do not overlap (each arrives at a quiescent pipeline; ticks and runs in any order, every worker succeeding), at quiescence the latest stored content of every (target, value) equals the from-scratch evaluation in level order (eval_topo); freshness is discharged, not assumed. Refuted for overlapping change events (C02_endstate_refuted = open known finding endstate-stale; the witness is replayed through the real scheduler + shelve store on every run and must stay stale).',
+    'note': 'Trusted: Coq kernel; Sched.v + drive_sched.py correspondence (fakes: transports, fsm stub, db stubs, in-memory AE packages); Flow.v + drive_flow.py correspondence (real scheduler, farm.dispatch, worker.Context.run, shelve store in a temp dir; fakes: in-memory AE packages whose run() stores a canonical text of what was loaded, socket hop, lock stubs, fsm stub, digest programs after the first real calls). Partial: end-state theorem only for non-overlapping change events, task-only engines with one value per algorithm (no value-level fan-out, feedback, analyses, regressions), no worker failures; worker hand-out and the archive trigger are outside Flow.v; promotion engine off; timer-driven requests are modelled in C20. Each end-to-end history costs seconds on the real store: quick = witness + 1 directed + 3 generated histories, thorough = 26.',
+    'technique': 'Coq proof over hand-written executable models (invariant over all non-overlapping histories for the end state) + model/implementation correspondence (step level for the scheduler; whole histories through the real store for the end state) + implementation-side oracles',
 }
 
 
@@ -24,8 +25,21 @@ def nontrivial(r):
 def run(ctx):
     sc.sched_check(
         ctx, so.c02, ['sched', 'mixed'], nontrivial,
-        rule='random acyclic engines with value-level input declarations (refs at alg/sv/value level, feedback) x random histories; success replies flag a random subset of the outputs new. Non-trivial = a success reply carried >= 1 new value consumed by >= 1 child while >= 1 other child consumes none of the new values')
+        rule='TRIGGER LEVEL: random acyclic engines with value-level input declarations (refs at alg/sv/value level, feedback) x random histories; success replies flag a random subset of the outputs new. Non-trivial = a success reply carried >= 1 new value consumed by >= 1 child while >= 1 other child consumes none of the new values. END STATE: the witness of C02_endstate_refuted, a directed overlap history and generated histories (change events / ticks / runs of any waiting message; non-overlapping and overlapping) on four task engines, run end to end through the real scheduler, farm.dispatch, worker.Context.run and shelve store; non-trivial = >= 2 change events and >= 4 runs through the real store, ending quiescent')
+    # end-state clause: Model/Flow.v against the real scheduler + store
+    for rel, names in [('Python/dawgie/db/shelve/model.py', ['Interface._load', 'Interface._update']),
+                       ('Python/dawgie/db/util/__init__.py', ['move', 'encode']),
+                       ('Python/dawgie/db/shelve/__init__.py', ['next'])]:
+        try:
+            ctx.note('fingerprint:' + rel, core.fingerprint(rel, names))
+        except Exception as e:  # noqa: BLE001
+            ctx.note('fingerprint:' + rel, 'unavailable: %s' % e)
+    n, keys = c02_flow.study(ctx)
+    ctx.count(evaluations=n, nontrivial_keys=keys)
 
 
 def replay(ctx, obj):
-    sc.sched_replay(ctx, obj, so.c02)
+    if obj.get('source') == 'flow':
+        c02_flow.replay(ctx, obj)
+    else:
+        sc.sched_replay(ctx, obj, so.c02)
